@@ -14,6 +14,7 @@ from .values import (Unsupported, SBytes, ClassInfo, Obj, FuncVal, BoundMethod,
                      Builtin, ModuleVal, Lazy)
 
 TRUSTED = [
+    "str.upper per character (ASCII exact; concrete non-ASCII characters through CPython itself), re.sub/re.subn only for the pattern '[^A-Z0-9_]{1}' with a one-character replacement",
     'struct.pack/unpack/unpack_from/calcsize: pyvc format model (codes x c b B h H i I l L q Q s, prefixes < > = !), validated against CPython struct on every run',
     'builtins on concrete values are evaluated by CPython itself (len, min, max, int, bytes, str methods, ...)',
     'bytes/bytearray/list/tuple/dict operations with symbolic elements: element-wise model in pyvc.interp / pyvc.stdlib',
@@ -379,8 +380,150 @@ def t_time(it):
 
 
 class SStr(SBytes):
-    """text whose characters are symbolic code points (only ASCII text is ever built)."""
+    """text whose characters are code points, some of them symbolic (symbolic ones are ASCII by construction / assumption)."""
     __slots__ = ()
+
+    def __getitem__(self, idx):
+        if isinstance(idx, slice):
+            return mk_str(self.items[idx])
+        x = self.items[idx]
+        return mk_str([x])
+
+    def __eq__(self, other):
+        return str_eq(self, other)
+
+    def __ne__(self, other):
+        return sx.Not(str_eq(self, other))
+
+    __hash__ = None
+
+
+def cps(x):
+    """code points of a str / SStr"""
+    if isinstance(x, SStr):
+        return list(x.items)
+    if isinstance(x, str):
+        return [ord(ch) for ch in x]
+    raise Unsupported('not text: %r' % type(x).__name__)
+
+
+def mk_str(items):
+    if all(not is_sym(x) for x in items):
+        return ''.join(chr(x) for x in items)
+    return SStr(list(items))
+
+
+def str_eq(a, b):
+    if not isinstance(a, (str, SStr)) or not isinstance(b, (str, SStr)):
+        return False
+    ia, ib = cps(a), cps(b)
+    if len(ia) != len(ib):
+        return False
+    return sx.And(*[sx.Eq(x, y) for x, y in zip(ia, ib)]) if ia else True
+
+
+def is_dchar_cp(c):
+    return sx.Or(sx.And(c >= 65, c <= 90), sx.And(c >= 48, c <= 57), sx.Eq(c, 95))
+
+
+def upper_cps(it, items):
+    out = []
+    for c in items:
+        if is_sym(c):
+            if not it.ctx.entails(z3.And(c >= 0, c < 128)):
+                raise Unsupported('str.upper() of a symbolic non-ASCII character')
+            out.append(z3.If(z3.And(c >= 97, c <= 122), c - 32, c))
+        else:
+            out.extend(ord(ch) for ch in chr(c).upper())
+    return out
+
+
+def sstr_method(it, o, name):
+    items = cps(o)
+
+    def upper():
+        return mk_str(upper_cps(it, items))
+
+    def split(sep=None, maxsplit=-1):
+        if not isinstance(sep, str) or len(sep) != 1:
+            raise Unsupported('split of symbolic text on whitespace/multi-character separator')
+        s = ord(sep)
+        parts, cur, nsplit = [], [], 0
+        for x in items:
+            if (maxsplit < 0 or nsplit < maxsplit) and it.truth(sx.Eq(x, s)):
+                parts.append(mk_str(cur))
+                cur = []
+                nsplit += 1
+            else:
+                cur.append(x)
+        parts.append(mk_str(cur))
+        return parts
+
+    def encode(encoding='utf-8', errors='strict'):
+        enc = encoding.lower().replace('_', '-')
+        for c in items:
+            if is_sym(c) and not it.ctx.entails(z3.And(c >= 0, c < 128)):
+                raise Unsupported('encode of symbolic non-ASCII text')
+        if all(not is_sym(c) for c in items):
+            return ''.join(chr(c) for c in items).encode(encoding, errors)
+        if any((not is_sym(c)) and c >= 128 for c in items):
+            raise Unsupported('encode of mixed symbolic / non-ASCII text')
+        if enc in ('utf-16-be', 'utf-16be'):
+            out = []
+            for x in items:
+                out += [0, x]
+            return V.mk_bytes(out)
+        if enc in ('utf-8', 'utf8', 'ascii', 'latin-1', 'latin1'):
+            return V.mk_bytes(items)
+        raise Unsupported('encode(%s) of symbolic text' % encoding)
+
+    def startswith(prefix):
+        p = cps(prefix)
+        if len(p) > len(items):
+            return False
+        return sx.And(*[sx.Eq(x, y) for x, y in zip(items, p)]) if p else True
+
+    def endswith(suffix):
+        p = cps(suffix)
+        if len(p) > len(items):
+            return False
+        return sx.And(*[sx.Eq(x, y) for x, y in zip(items[len(items) - len(p):], p)]) if p else True
+
+    def count(sub):
+        if isinstance(sub, str) and len(sub) == 1:
+            return sx.Sum([sx.If(sx.Eq(x, ord(sub)), 1, 0) for x in items])
+        raise Unsupported('count of a substring in symbolic text')
+
+    def join(seq):
+        out, first = [], True
+        for part in seq:
+            if not first:
+                out.extend(items)
+            out.extend(cps(part))
+            first = False
+        return mk_str(out)
+
+    def rstrip(chars=None):
+        cs = [ord(ch) for ch in (chars if chars is not None else ' \t\n\r\x0b\x0c')]
+        n = len(items)
+        while n > 0 and it.truth(sx.Or(*[sx.Eq(items[n - 1], ch) for ch in cs])):
+            n -= 1
+        return mk_str(items[:n])
+
+    def lstrip(chars=None):
+        cs = [ord(ch) for ch in (chars if chars is not None else ' \t\n\r\x0b\x0c')]
+        i = 0
+        while i < len(items) and it.truth(sx.Or(*[sx.Eq(items[i], ch) for ch in cs])):
+            i += 1
+        return mk_str(items[i:])
+
+    table = dict(upper=upper, split=split, encode=encode, startswith=startswith, endswith=endswith, count=count, join=join, rstrip=rstrip, lstrip=lstrip)
+    if name not in table:
+        raise Unsupported('method %s on symbolic text' % name)
+    return table[name]
+
+
+DCHAR_RE = '[^A-Z0-9_]{1}'
 
 
 def digits(env, v, n):
@@ -898,6 +1041,23 @@ def dict_method(it, o, name):
 
 
 def native_attr(it, o, name, node, frame):
+    if isinstance(o, SStr):
+        return Builtin('str.' + name, sstr_method(it, o, name))
+    if isinstance(o, str) and name in ('join', 'split', 'upper', 'startswith', 'endswith', 'count', 'encode'):
+        native = getattr(o, name)
+        fn = sstr_method(it, o, name)
+
+        def swrapper(*a, **k):
+            flat = []
+            for x in a:
+                flat.extend(x if isinstance(x, (list, tuple)) else [x])
+            if any(isinstance(x, SStr) for x in flat):
+                return fn(*a, **k)
+            try:
+                return native(*a, **k)
+            except (ValueError, TypeError, UnicodeError) as e:
+                it.raise_exc(type(e).__name__, str(e))
+        return Builtin('str.' + name, swrapper)
     if isinstance(o, SBytes) or (isinstance(o, (bytes, bytearray)) and name in ('startswith', 'endswith', 'join', 'ljust', 'rjust', 'rstrip', 'lstrip', 'strip', 'find', 'index', 'count', 'split', 'isdigit')):
         fn = sbytes_method(it, o, name)
         native = getattr(o, name, None) if isinstance(o, (bytes, bytearray)) else None
@@ -1414,6 +1574,8 @@ def r_getrandbits(it, k):
 
 def re_sub(it, pat, repl, s, *a, **k):
     import re
+    if isinstance(s, SStr):
+        return re_subn(it, pat, repl, s, *a, **k)[0]
     if has_sym(s) or has_sym(pat) or has_sym(repl):
         raise Unsupported('re.sub on symbolic text')
     return re.sub(pat, repl, s, *a, **k)
@@ -1421,6 +1583,16 @@ def re_sub(it, pat, repl, s, *a, **k):
 
 def re_subn(it, pat, repl, s, *a, **k):
     import re
+    if isinstance(s, SStr):
+        # model of exactly one pattern: every character that is not A-Z 0-9 _ is replaced (one for one)
+        if pat != DCHAR_RE or not isinstance(repl, str) or len(repl) != 1 or a or k:
+            raise Unsupported('re.sub(%r) on symbolic text' % (pat,))
+        out, cnt = [], 0
+        for c in s.items:
+            ok = is_dchar_cp(c)
+            out.append(sx.If(ok, c, ord(repl)) if is_sym(ok) else (c if ok else ord(repl)))
+            cnt = cnt + (sx.If(ok, 0, 1) if is_sym(ok) else (0 if ok else 1))
+        return mk_str(out), cnt
     if has_sym(s):
         raise Unsupported('re.subn on symbolic text')
     return re.subn(pat, repl, s, *a, **k)
